@@ -243,7 +243,62 @@ def giveup_case(case):
     return r
 
 
+def scales_case(case):
+    """a DECOUPLED system whose components differ in size by twelve orders of magnitude: one slow mode of size 1e6 and oscillators of amplitude 1e-6.
+    Because nothing couples them, the error of component i is produced by component i's local errors alone, which the controller must hold at
+    (atol + rtol*|y_i|): judged per component with |y_i| = the component's amplitude over the run.  Vector and matrix layouts."""
+    de, I = lc._imports()
+    r = Res()
+    name = case["method"]
+    t0, tf = case["span"]
+    w = 8.0
+    big, small = 1.0e6, 1.0e-6
+
+    def f(t, y, **kw):
+        v = np.reshape(y, (-1,))
+        out = np.array([-0.1 * v[0], w * v[2], -w * v[1], -0.25 * v[3]], dtype=v.dtype)
+        return out.reshape(np.shape(y))
+
+    def ex(t):
+        t = LD(t) - LD(t0)
+        return np.array([LD(big) * np.exp(LD(-0.1) * t), LD(small) * np.sin(LD(w) * t), LD(small) * np.cos(LD(w) * t), LD(small) * np.exp(LD(-0.25) * t)], dtype=LD)
+    shape = tuple(case["shape"])
+    y0 = np.asarray(ex(t0), dtype=np.float64).reshape(shape)
+    rt, at = case["rtol"], case["atol"]
+    a = de.OdeSystem(f, y0=y0, t=(np.float64(t0), np.float64(tf)), dt=np.float64(case["dt0"]), rtol=np.float64(rt), atol=np.float64(at))
+    a.method = method_of(name)
+    r.n = 1
+    try:
+        a.integrate(callback=driver.Budget(60000))
+    except de.exception_types.FailedIntegration as e:
+        if driver.budget_hit(e):
+            r.add("out_of_budget"); r.out(("budget", name)); return r
+        r.v("C05/raises/%s" % name, "a well-conditioned smooth problem is integrated at the requested tolerance in both directions of time", case, observed=repr(e.__cause__)[:200], expected="completes")
+        return r
+    T = np.asarray(a.t); Y = np.asarray(a.y, dtype=LD).reshape(len(T), -1)
+    E = np.stack([ex(t) for t in T])
+    span = abs(tf - t0)
+    growth = float(np.exp(0.25 * span)) if tf < t0 else 1.0           # backward in time the decaying modes grow
+    amp_i = np.max(np.abs(E), axis=0).astype(float)
+    err_i = np.max(np.abs(Y - E), axis=0).astype(float)
+    steps = len(T) - 1
+    bound = SCALES_C * (at + rt * amp_i) * growth
+    ratio = err_i / bound
+    if np.any(ratio > 1):
+        i = int(np.argmax(ratio))
+        r.v("C05/component-scales/%s" % name, "error bounded by a modest constant times (atol + rtol*|y|), component by component on a decoupled system", dict(case, component=i),
+            observed=dict(err=float(err_i[i]), bound=float(bound[i]), amplitude=float(amp_i[i]), steps=steps), expected="err_i <= %g (atol + rtol |y_i|)" % SCALES_C)
+    r.out(("scales", name, len(shape), tf > t0, int(np.ceil(np.log10(max(ratio.max(), 1e-30))))))
+    r.ret = float(ratio.max())
+    return r
+
+
+SCALES_C = 500.0      # frozen (observed on the unchanged tree: <= 1e2; a controller that weighs components against each other is off by 1e4..1e6)
+
+
 def run_case(case):
+    if case["section"] == "scales":
+        return scales_case(case)
     return giveup_case(case) if case["section"] == "giveup" else accuracy_case(case)
 
 
@@ -280,6 +335,19 @@ def run(ctx):
                     if ctx.quick and m in ("RadauIIA19", "LobattoIIIC4") and prob == "damped":
                         continue
                     cases.append(dict(section="acc", method=m, problem=prob, span=[t0, tf], tol=rt, rtol=rt, atol=at, amp=amp, dt0=0.1))
+    # components of very different size in one state (decoupled, judged per component)
+    # (explicit pairs and a Richardson wrapper of an explicit base: their only error source is the local truncation error, which the controller weighs per
+    #  component.  Implicit pairs also solve their stage equations to a NORM-wise tolerance, 0.5*max(atol + rtol*|y|_inf) - all C02 grants them - so for them
+    #  only the norm-wise bound of the accuracy cells is demanded; observed on this system: 2e3 .. 7e3 (atol + rtol |y_i|) in the small components.)
+    for m in [x for x in PAIRS if x not in ("LobattoIIIC4", "RadauIIA5", "RadauIIA19")] + RICH[2:3]:
+        if m in ("HeunEulerSolver",):
+            continue            # second order: 1e-6 relative needs > 2e4 steps here
+        for span in ([0.0, 3.0], [3.0, 0.0]):
+            for (rt, at) in ((1e-6, 1e-18), (1e-8, 1e-20)):
+                if m in ("RICH:RK4Solver:3",) and rt < 1e-6:
+                    continue
+                for shape in ([4], [2, 2]):
+                    cases.append(dict(section="scales", method=m, span=span, rtol=rt, atol=at, tol=rt, dt0=0.05, shape=shape))
     for m in PAIRS + RICH[:3]:
         for span in ([0.0, 2.0], [0.0, -2.0], [-3.0, -1.0], [3.0, 1.0]):
             for tol in (1e-6, 1e-9):
@@ -293,11 +361,14 @@ def run(ctx):
                         "kappa = amplification bound of the problem over the span (from the variational equation)",
                         "a retry is judged 'after a controller rejection' when the preceding attempt solved its stage equations (explicit methods: always)"]
     rets = grid.pmap(run_case, cases, ctx, horizon=900, collect=True)
-    worst = {}
+    worst = {}; worst_sc = {}
     for c, rt in zip(cases, rets):
         if rt is not None and c["section"] == "acc":
             worst[c["method"]] = max(worst.get(c["method"], 0.0), float(rt))
-    ctx.note("observed", worst_error_over_tol_kappa={k: round(v, 2) for k, v in sorted(worst.items())}, cells_out_of_bound=skipped)
+        if rt is not None and c["section"] == "scales":
+            worst_sc[c["method"]] = max(worst_sc.get(c["method"], 0.0), float(rt))
+    ctx.note("observed", worst_error_over_tol_kappa={k: round(v, 2) for k, v in sorted(worst.items())}, cells_out_of_bound=skipped,
+             worst_component_ratio_scales={k: round(v, 4) for k, v in sorted(worst_sc.items())})
 
 
 def replay(case):
